@@ -210,6 +210,9 @@ static void ga_crash_handler(int sig, siginfo_t *si, void *uc_)
 	if (ga_crash_extra)
 		ga_crash_extra();
 	vp_dump_threads(stderr);
+	/* the driver keeps only the tail of stderr: repeat the classification line last */
+	fprintf(stderr, "VP-CRASH sig=%d addr=%p class=[%s] rip=%p %s\n", sig, addr, cls,
+		uc ? (void *) uc->uc_mcontext.gregs[REG_RIP] : NULL, detail);
 	signal(sig, SIG_DFL);
 	raise(sig);
 }
